@@ -121,6 +121,48 @@ CHECKS = {
         note="Found and repaired with it: use-abandons-store, failed-use-nil-service. Trusted: TLC, hooks H1/H2 (timer off, store registry).",
         technique="TLA+ spec (Session.tla) model-checked with TLC; per-transition behaviour replay through engine.Session",
     ),
+    "C19": dict(
+        category="exploration",
+        text="CsvImport.tla states the importer as a state machine over a record stream with the oracle (Stored/RowOf/Conv: "
+             "per-type conversion, \\N -> NULL, unmapped columns NULL) as a function of field texts; TLC checks the clauses of the "
+             "property on the machine and enumerates every stream of up to 3-4 records (10-12 for a two-class alphabet) over nine "
+             "record classes for 8-13 schema/mapping/separator configurations; every stream is rendered as CSV (three line-end "
+             "renderings), imported by the real colDataTypes+doBatchInsert into a fresh database behind the real RelationService, "
+             "and the ok/err event order and SELECT * are compared for equality with what TLC printed.",
+        design_ref="DESIGN.md 6 (C19)",
+        note="Trusted: TLC, Json module, the in-package harness (CSV rendering by the usual quoting rule, event/row copying). "
+             "Value tables are finite (which decimal texts are 32/64-bit, booleans true/false/1/0); malformed quoting limited to "
+             "one-line forms; bounded stream length; oversized rows and unterminated quotes probed by hand only.",
+        technique="TLA+ spec (CsvImport.tla) model-checked with TLC; bounded-exhaustive behaviour replay on doBatchInsert + storage",
+    ),
+    "C20": dict(
+        category="model_checking",
+        text="Console.tla states the line assembler (Key, Enter over buf/inQuote/out) and, independently, the reference meaning "
+             "(statements = input cut at semicolons outside literals, equal up to whitespace between tokens, literals intact); TLC "
+             "checks the machine against the meaning and enumerates every key sequence up to 8-10 keys with line breaks anywhere "
+             "outside literals; every complete behaviour is fed to the real Terminal.ReadLine under six read schedules (typed, per "
+             "line, pasted, bracketed paste in three forms); outputs that differ from the machine's are judged by TLC itself "
+             "(ConsoleJudge.tla): whitespace drift is a NOTE, anything else a violation.",
+        design_ref="DESIGN.md 6 (C20)",
+        note="Trusted: TLC, Json module, the in-package harness (feeds bytes, copies ReadLine results). Alphabet {1-2 letters, "
+             "space, ;, ', \"} + Enter(13); line breaks inside literals, backslash escapes, backquotes and comments are outside "
+             "the property and not modelled; bounded length.",
+        technique="TLA+ spec (Console.tla) model-checked with TLC; every complete behaviour replayed on Terminal.ReadLine; oracle evaluated by TLC on real outputs (ConsoleJudge.tla)",
+    ),
+    "C05": dict(
+        category="exploration",
+        text="SqlSem.tla defines the reference meaning of SELECT (filter by a disjunction of conjunctions of comparisons, projection with "
+             "expressions and aliases, ORDER BY with ASC/DESC, OFFSET/LIMIT) and the acceptance predicate ResultOK, which admits exactly the "
+             "results some sorted arrangement of the candidates yields (ties free, window counts per key fixed). SqlSemGen.tla enumerates the "
+             "component sets (137 tables of 0-3 rows over INT/VARCHAR/BOOLEAN/BIGINT, 765 WHERE shapes incl. `x AND y OR z` and `x OR y AND z`, "
+             "17 list/order combinations, 25 LIMIT/OFFSET pairs); every element is used at least once plus a seeded sample of the product; each "
+             "case is rendered as SQL text in 8 styles, run through the real parser and EvaluateSelect on a real database, and TLC "
+             "(SqlSemJudge.tla) evaluates ResultOK on what came back.",
+        design_ref="DESIGN.md 6 (C05)",
+        note="Bounded-exhaustive over components, sampled over their product (counts in the evidence). Trusted: TLC as evaluator, the SQL "
+             "renderer and result serialiser in harness/cmd/sem. NULL operands are outside the property and not generated.",
+        technique="TLA+ reference semantics (SqlSem.tla) with inputs enumerated by TLC (SqlSemGen.tla) and the oracle evaluated by TLC on real results (SqlSemJudge.tla)",
+    ),
 }
 
 NOT_YET = "check not built yet (build in progress; see DESIGN.md section 6)"
